@@ -105,10 +105,19 @@ class ReturnSignal(Exception):
 
 
 class RaiseSignal(Exception):
-    def __init__(self, exc_type: str, node, where: str):
+    def __init__(self, exc_type: str, node, where: str, args: tuple = ()):
         self.exc_type = exc_type
         self.node = node
         self.where = where
+        self.exc_args = args
+
+
+class ExcValue:
+    """The object bound by `except E as err`."""
+
+    def __init__(self, exc_type: str, args: tuple):
+        self.exc_type = exc_type
+        self.args = args
 
 
 class BreakSignal(Exception):
@@ -173,6 +182,7 @@ class Interp:
                 out = Outcome('return', r.value, self.conditions, self.events)
             except RaiseSignal as r:
                 out = Outcome('raise', None, self.conditions, self.events, r.exc_type, r.where)
+                out.exc_args = r.exc_args  # type: ignore[attr-defined]
             outcomes.append(out)
             # schedule alternatives for decisions made beyond the prefix
             for i in range(len(prefix), len(self._choices)):
@@ -291,12 +301,23 @@ class Interp:
 
     def st_Raise(self, st, env, mi):
         exc = 'Exception'
+        args: tuple = ()
         if st.exc is not None:
             e = st.exc
             if isinstance(e, ast.Call):
+                try:
+                    args = tuple(self.eval(a, env, mi) for a in e.args if not isinstance(a, ast.Starred))
+                except AnalysisError:
+                    args = ()
                 e = e.func
+            elif isinstance(e, ast.Name) and isinstance(env.get(e.id), ExcValue):
+                ev = env[e.id]
+                raise RaiseSignal(ev.exc_type, st, self.where(st), ev.args)
             exc = ast.unparse(e).split('.')[-1]
-        raise RaiseSignal(exc, st, self.where(st))
+        elif isinstance(env.get('__active_exception__'), ExcValue):
+            ev = env['__active_exception__']
+            raise RaiseSignal(ev.exc_type, st, self.where(st), ev.args)
+        raise RaiseSignal(exc, st, self.where(st), args)
 
     def st_Assert(self, st, env, mi):
         pass
@@ -426,8 +447,10 @@ class Interp:
                 else:
                     names = [ast.unparse(h.type).split('.')[-1]]
                 if r.exc_type in names or 'Exception' in names or 'BaseException' in names:
+                    ev = ExcValue(r.exc_type, r.exc_args)
                     if h.name:
-                        env[h.name] = Opaque('exception object')
+                        env[h.name] = ev
+                    env['__active_exception__'] = ev
                     self.exec_body(h.body, env, mi)
                     break
             else:
@@ -685,6 +708,8 @@ class Interp:
                 return Opaque(f'{fn.name}(⊤)')
             try:
                 return fn.fn(*args, **kwargs)
+            except (RaiseSignal, ReturnSignal, AnalysisError):
+                raise
             except Exception as ex:  # noqa: BLE001
                 raise AnalysisError(f'concrete call {fn.name} failed at {self.where(node)}: {ex}') from None
         if isinstance(fn, Lambda):
@@ -894,7 +919,7 @@ class Interp:
         try:
             return obj[key]
         except (KeyError, IndexError):
-            raise RaiseSignal('KeyError' if isinstance(obj, dict) else 'IndexError', node, self.where(node)) from None
+            raise RaiseSignal('KeyError' if isinstance(obj, dict) else 'IndexError', node, self.where(node), (key,)) from None
         except TypeError as ex:
             raise AnalysisError(f'subscript at {self.where(node)}: {ex}') from None
 
